@@ -288,8 +288,16 @@ def r3_commands(report, repo):
   cs = core.calls_in(f.node, attr='send_command')
   report.expect_instances(rule, len(cs), 1, 'download announcements')
   c = cs[0]
+  arg1 = c.args[1] if len(c.args) == 2 else None
+  if isinstance(arg1, ast.Name):
+    # formatted into a local first (its one definition)
+    g0 = lib.cfg(f)
+    nodes = g0.nodes_of(core.enclosing_stmt(c))
+    vals = lib.value_exprs(g0, nodes[0], arg1) if nodes else []
+    if len(vals) == 1:
+      arg1 = vals[0]
   ok = core.const_str(c.args[0]) == 'download' and len(c.args) == 2 and \
-      _fmt_is_08x(c.args[1], 'source_len')
+      _fmt_is_08x(arg1, 'source_len')
   report.check(ok, rule, f.qualname, 'announcement', c,
                'send_command(\'download\', <source_len as %08x>)',
                'the download announcement is %s: the size must be 8 '
@@ -327,7 +335,7 @@ def r3_commands(report, repo):
             w.args[0].args):
       return 'one-packet: must write the whole command string'
     sent = w.args[0].args[0]
-    ln = w.args[1]
+    ln = cfgm.path_resolve(p, w.args[1])
     if not (call_name(ln) == 'len' and dotted(ln.args[0]) == dotted(sent)
             and dotted(sent) is not None):
       return 'one-packet: must write the whole command string'
@@ -369,15 +377,26 @@ def r4_transfer(report, repo):
          left is not None and core.is_name(n.target, left)]
   ok = len(rd) == 1 and len(wr) == 1 and len(dec) == 1
   if ok:
+    g = lib.cfg(f)
+
+    def res(at_stmt, e):
+      """what a local stands for where it is used (its one definition)"""
+      if isinstance(e, ast.Name):
+        nodes = g.nodes_of(at_stmt)
+        vals = lib.value_exprs(g, nodes[0], e) if nodes else []
+        if len(vals) == 1 and vals[0] is not e:
+          return vals[0]
+      return e
     buf = dotted(rd[0].targets[0])
     ok = dotted(wr[0].args[0]) == buf and isinstance(dec[0].op, ast.Sub) and \
-        norm(dec[0].value) == 'len(%s)' % buf and \
+        norm(res(dec[0], dec[0].value)) == 'len(%s)' % buf and \
         lib.stmt_index(lp.body, rd[0]) < lib.stmt_index(lp.body, wr[0])
-    size = norm(rd[0].value.args[0]) if rd[0].value.args else ''
+    size = norm(res(rd[0], rd[0].value.args[0])) if rd[0].value.args else ''
     ok = ok and size.replace(' ', '') in ('FASTBOOT_DOWNLOAD_CHUNK_SIZE_KB*1024',
                                           '1024*FASTBOOT_DOWNLOAD_CHUNK_SIZE_KB')
     snd = [c for c in core.calls_in(lp, attr='send')]
-    ok = ok and len(snd) == 1 and norm(snd[0].args[0]) == 'len(%s)' % buf
+    ok = ok and len(snd) == 1 and norm(res(
+        core.enclosing_stmt(snd[0]), snd[0].args[0])) == 'len(%s)' % buf
   report.check(ok, rule, f.qualname, 'read-write-agree', lp,
                'tmp = data.read(CHUNK_KB * 1024); length -= len(tmp); '
                'usb.write(tmp); progress.send(len(tmp))',
